@@ -149,6 +149,17 @@ ref_storable(RegisterType t, uint64_t bits)
     return true;
 }
 
+/* IEEE NaN by bit pattern (floats only) */
+static inline bool
+ref_is_nan(RegisterType t, uint64_t bits)
+{
+    if (t == REG_TYPE_FLOAT32)
+        return ((bits >> 23) & 0xff) == 0xff && (bits & 0x7fffff) != 0;
+    if (t == REG_TYPE_FLOAT64)
+        return ((bits >> 52) & 0x7ff) == 0x7ff && (bits & 0xfffffffffffffull) != 0;
+    return false;
+}
+
 static inline int
 ref_cmp(RegisterType t, RegisterValueU a, RegisterValueU b)
 {
@@ -458,6 +469,12 @@ flat_write_verdict(const struct tab *t, uint32_t addr, uint32_t n, const Registe
         if (!ref_storable(rs->type, bits)) {
             if (v->invalid < 0)
                 v->invalid = first;
+            /* an infinite or subnormal pattern is still an ordered value: when
+             * it also lies outside the register's constraint both classes apply
+             * (the statement fixes no precedence between them).  NaN compares
+             * with nothing: undecodable only. */
+            if (!ref_is_nan(rs->type, bits) && !ref_constraint(rs, ref_from_bits(rs->type, bits)) && v->range < 0)
+                v->range = first;
         } else if (!ref_constraint(rs, ref_from_bits(rs->type, bits))) {
             if (v->range < 0)
                 v->range = first;
